@@ -9,7 +9,7 @@ cond2arithm.  Snapshot 0 is the output of Polar's parser.
 """
 import itertools
 
-from ..common import base_programs, exc_name, build_model
+from ..common import base_programs, alias_programs, exc_name, build_model
 from ..model import Model, NotApplicable, CapHit
 from ..refparser import parse_program, NotPolynomial
 from ..poly import Poly, ZERO, ONE, parse_poly
@@ -44,7 +44,7 @@ def bounds(tier):
 def cases(tier, seed):
     out = []
     N = 3 if tier == "quick" else 4
-    for text in base_programs(tier):
+    for text in base_programs(tier) + alias_programs(tier):
         for si, st in enumerate(SETTINGS):
             if si == 1 and "{" not in text:
                 continue
